@@ -23,8 +23,8 @@ RULE = ("every corpus file and generated document is formatted once, then format
 EVAL_KEY = "pairs_judged"
 DISTINCT_KEY = "pairs"
 NSHARDS = {"quick": 8, "thorough": 16}
-FLOORS = {"quick": {"pairs_judged": 4000, "distinct:option-sets": 40, "determinism_checks": 4000},
-          "thorough": {"pairs_judged": 80000, "distinct:option-sets": 500, "determinism_checks": 80000, "hash_seed_digests": 3}}
+FLOORS = {"quick": {"pairs_judged": 4000, "distinct:option-sets": 40, "determinism_checks": 4000, "list_layout_documents": 60},
+          "thorough": {"pairs_judged": 80000, "distinct:option-sets": 500, "determinism_checks": 80000, "hash_seed_digests": 3, "list_layout_documents": 1200}}
 ASSUMPTIONS = ["byte equality and exact dictionary equality need no model"]
 DOMAIN = gen.DOMAIN + ["loads is called as in the statement (no kept comments): idempotence with include_comments=True is not claimed by the "
                        "property (END comments of the first pass would be read back as source comments)","documents whose strings contain the output quote character or a backslash are skipped for that quote (documented)",
@@ -130,6 +130,19 @@ def run(ctx):
         s = render.surfaces(r, 1)[0] if r.random() < 0.5 else render.CANONICAL
         text = render.render(nodes, s, r).text
         docs.append(("gen", h(text), text))
+    # list expressions in every layout people write them in (blanks around the commas and inside the braces), alone and as the
+    # right-hand side of IN
+    for j in range(ctx.n(80, 1600)):
+        els = [r.choice(["motorway", "trunk", "a", "Main_St", "01", "2.50", "+3", "1e3", ".5", "x1", "class one", "10", "-7"]) for _ in range(r.randint(1, 5))]
+        lst = "{" + r.choice(["", "", " "]) + els[0]
+        for e in els[1:]:
+            lst += r.choice(["", "", " "]) + "," + " " * r.choice([0, 0, 1, 1, 2, 3, 4]) + e
+        lst += r.choice(["", "", " "]) + "}"
+        host = r.choice(["CLASS\n  EXPRESSION %s\nEND\n", "CLASS\n  NAME \"c\"\n  EXPRESSION ([kind] IN %s)\nEND\n",
+                         "LAYER\n  CLASS\n    EXPRESSION %s\n  END\n  CLASS\n    EXPRESSION (\"[k]\" IN %s AND [n] > 1)\n  END\nEND\n"])
+        text = host % ((lst,) * host.count("%s"))
+        res.count("list_layout_documents")
+        docs.append(("list-layout", h(text), text))
     for idx, (label, ident, text) in enumerate(docs):
         if ctx.quick:
             osets = r.sample(cover, 8)
